@@ -137,6 +137,7 @@ func NewCtx(id, tier, level string) *Ctx {
 		Work: os.Getenv("VERIF_WORK"), Bin: os.Getenv("VERIF_TASKCTL"), BinDir: os.Getenv("VERIF_BIN"),
 		start: time.Now(), nontriv: map[string]bool{}, distinct: map[string]bool{}, counters: map[string]int64{},
 		extra: map[string]interface{}{}, violSigs: map[string]int{}, knownHits: map[string]int{}, MinNontriv: 2}
+	os.RemoveAll(filepath.Join(root, "replays", id)) // replay files of earlier runs of this check are stale
 	b, err := os.ReadFile(filepath.Join(root, "known_findings.json"))
 	if err == nil {
 		var fs []Finding
